@@ -55,6 +55,35 @@ def gen_dim(r, extent):
     return {"vec": [num_json(v) for v in vals], "as": r.choice(["list", "array", "list"])}
 
 
+NARROW = ["float32", "float32", "float16", "uint8", "int8", "uint16", "int16", "int32", ">f4"]
+
+
+def narrow_dims(r, rec):
+    """DIRECTED stream (C02): every axis gets a full-length numpy dim vector held in a dtype NARROWER than the 64-bit
+    arithmetic of the linearity test and of the reader's re-expansion: float32 / float16 ramps with non-dyadic steps (linear
+    only after rounding into that dtype), decreasing unsigned ramps (the step wraps), small signed ints.  The Lean codec is
+    parametric in ONE arithmetic and is not asked about these (mixed-width arithmetic is numpy's, H2); they are decided by
+    the direct round-trip predicate: what was saved is what is read, value by value."""
+    shape = rec["shape"]
+    nshape = shape[1:] if rec.get("labels") is not None else shape
+    dims = []
+    for ext in nshape:
+        dt = r.choice(NARROW)
+        if "f" in dt:
+            a0 = r.choice([0.0, 0.1, -0.3, 1 / 3, 2.5, 1.0])
+            st = r.choice([0.1, 0.3, 1 / 3, -0.1, 0.7, 0.5, 1e-3, 1.1])
+        else:
+            st = r.choice([1, 2, -1, -2, 3, -3])
+            a0 = r.choice([0, 1, 5]) if st > 0 else (ext - 1) * -st + r.choice([0, 1, 4])
+        vals = [a0 + st * i for i in range(ext)]
+        if r.random() < 0.2 and ext > 2:
+            vals[r.randrange(2, ext)] += 1
+        dims.append({"vec": [num_json(v) for v in vals], "as": "array", "dt": dt})
+    rec["dims"] = dims
+    rec["narrow"] = True
+    return rec
+
+
 UNITS = ["nm", "A^-1", "Å", "", "pixels", "unknown", "a rather long unit name", "µm", "s", "u" * 70 + "é" * 100]
 NAMES = ["rx", "ry", "qx", "qy", "x", "time", "dim0", "dim9", "énergie", "", "a b", "n" * 63 + "é" * 90]
 
@@ -142,6 +171,8 @@ def py_dim(d):
         return num_py(d["num"])
     xs = [num_py(x) for x in d["vec"]]
     if d.get("as") == "array":
+        if d.get("dt"):
+            return np.array(xs).astype(d["dt"])          # a calibration vector held in a NARROW numpy dtype
         return np.array(xs) if xs else np.array([], dtype=float)
     return xs
 
